@@ -51,7 +51,16 @@ def setup_restore(mask):
         fresh = Obj(cls, {"values": ("fresh", "values"), "policy": None, "iteration": 0}, label="fresh_solver")
         seen = []
         def inst(cfg):
-            seen.append(dict(cfg.attrs)); I.ghost.setdefault("effects", []).append(("instantiate", (dict(cfg.attrs),), list(I.pc))); return fresh
+            """assumed contract of hydra.utils.instantiate(config): a solver constructed from that configuration - in particular its OWN checkpointing
+            attributes come from the configuration's fields (directory recorded in config.yaml, frequency after overrides)"""
+            seen.append(dict(cfg.attrs)); I.ghost.setdefault("effects", []).append(("instantiate", (dict(cfg.attrs),), list(I.pc)))
+            f_ = cfg.attrs["checkpoint_frequency"]; d_ = cfg.attrs["checkpoint_dir"]
+            fresh.attrs.update({"checkpoint_frequency": f_, "max_checkpoints": cfg.attrs["max_checkpoints"], "enable_async_checkpointing": cfg.attrs["enable_async_checkpointing"]})
+            if I.truth(toz3(f_) > 0):
+                own = I.call(I.models["orbax.checkpoint"]["CheckpointManager"], [d_ if not isinstance(d_, str) else I.PathV(d_)], {"options": None})
+                fresh.attrs.update({"checkpoint_manager": own, "checkpoint_dir": d_})
+            else: fresh.attrs["checkpoint_manager"] = None
+            return fresh
         I.ghost["instantiate"] = inst
         step, f_new, m_new = z3.Ints("step_arg f_new m_new"); a_new = z3.Bool("async_new")
         I.assume(z3.And(step >= 1, f_new >= 0, m_new >= 0))            # every value the documented domain allows, in particular 0 (= checkpointing disabled)
@@ -72,9 +81,11 @@ def post_overrides(c, q):
     conj.append(toz3(cfg["gamma"]) == toz3(c.saved["gamma"]))
     return z3.And(*conj)
 def post_step(c, q):
-    rest = eff(c, "cm.restore"); news = eff(c, "cm.new")
-    if len(rest) != 1 or len(news) != 1: return z3.BoolVal(False)
-    ok = z3.BoolVal("ckdir" in news[0][1][0])                         # the state is read from the ORIGINAL directory, whatever new_checkpoint_dir says
+    rest = eff(c, "cm.restore")
+    if len(rest) != 1: return z3.BoolVal(False)
+    # the state is read through a manager opened on the directory GIVEN to restore() - not the directory recorded in config.yaml
+    # (a copied / moved checkpoint directory), not new_checkpoint_dir
+    ok = z3.BoolVal(rest[0][1][0] == "CM[ckdir]")
     if c.given["step"]: ok = z3.And(ok, toz3(rest[0][1][1]) == c.vals["step"])
     return ok
 def eff(c, kind): return [e for e in c.I.ghost.get("effects", []) if e[0] == kind]
